@@ -43,6 +43,14 @@ ENGINES["treesim"] = {
                               "ACL records are produced once by the owner (real builder; harness builder in sorted order for removals) and pre-applied on every replica"]},
 }
 
+ENGINES["aclsim"] = {
+    "serves": ["C04"],
+    "kind": "single-goroutine event loop: actors with stale real ACL views build records (real builder or, byzantine, raw protobuf) and submit them to a simulated consensus node (real fully validating AclList + acceptor signature); observers follow the chain through a faulty network",
+    "real_vs_stub": {"real": ["acl/list (record builder, AclState, content validator, keep-identity partial decoder, in-memory and any-store storage)", "recordverifier (ValidateFull and acceptor verifier)",
+                              "util/crypto (Ed25519, X25519 sealed boxes, AES)", "consensusproto / aclrecordproto codecs"],
+                     "stub": ["consensus node: real AclList with full validation + harness acceptor signature by a sim network key (no consensus service, no coordinator)", "network between actors, observers and consensus: harness event loop"]},
+}
+
 PROPS = {
     "C01": {
         "engine": "treesim",
@@ -78,6 +86,20 @@ PROPS = {
         "level_text": "Seeded exploration of message/ACL schedules with byzantine fault kinds; an independent reference predicate decides admissibility of every stored change on every replica after every delivery, and rejected deliveries must leave state untouched.",
         "level_note": "real tree/sync/ACL/storage code; byzantine inputs are built by the harness from the protobuf types; primitives (Ed25519, CID) trusted",
         "expected_probes": ["byz-admissible-built", "byz-inadmissible-built", "byz-admissible-accepted", "delivery-rejected"],
+    },
+    "C04": {
+        "engine": "aclsim",
+        "level": "exploration",
+        "budget": {"quick": 60, "thorough": 900},
+        "rule": "one run = 5-8 accounts (owner + others whose roles emerge from the run), 8-45 submissions to a fully validating consensus list. Honest submissions: every record kind of the real client-side builder (invites of both types, join request, invite join, accept, decline, cancel, permission change, add, remove with rotation, invite revoke/change, ownership transfer, options, request-remove, rotation, multi-content batch) built against the actor's own view, 15% of them stale. "
+                "Byzantine submissions (0/30/60/85% of a run): AclData with 1-3 contents assembled directly from the protobuf types - all 16 content kinds with author, target, permission level (all six incl. None/Owner), invite id and request id drawn from every id that exists (invites, requests, arbitrary records, a bogus id), real invite-key signatures or garbage - correctly signed by any account (owner, admins, members, removed, outsiders) on top of the current head. "
+                "Oracle after every accepted record: delta invariants over the public state before/after written from the property text (one owner; Admin role enters/leaves only by the owner's record or by self-join through an owner-issued Admin-level open invite; ownership only by the owner to an active member, old owner keeps a role; options only by owner; other accounts, invites and others' requests change only by owner/admin; guests stay guest or leave; outsiders gain access only through a live open invite within its permissions; no self-promotion). evaluations = accepted records judged.",
+        "assumptions": COMMON_ASSUMPTIONS + ["records are not byte-deterministic across executions of one seed (the real builder ranges over Go maps while consuming randomness); control flow, logs and replay are symbolic (account names, chain indexes) and never depend on record bytes",
+                                             "the delta invariants are over public accessors of AclState (permissions, status, invites, pending requests, options, owner)"],
+        "technique": "deterministic simulation: seeded multi-party histories over a simulated consensus node with byzantine participants building raw records; delta-invariant oracle on every accepted record",
+        "level_text": "Seeded exploration of reachable ACL states through interleavings of honest (stale-view) and byzantine submissions; every accepted record is judged by delta invariants that do not use validator.go.",
+        "level_note": "real ACL list/state/validator/builder; consensus ordering is a harness stub around a real validating list",
+        "expected_probes": [],
     },
     "C06": {
         "engine": "treesim",
